@@ -38,6 +38,9 @@ pub struct Case {
     /// hot_reload call is made: the call handles what was queued when it arrived, not the flood
     #[serde(default)]
     flood: u8,
+    /// afterwards: a dependency chain of that many assets is reloaded by one call
+    #[serde(default)]
+    chain: u16,
 }
 
 static STARTED: AtomicU64 = AtomicU64::new(0);
@@ -47,6 +50,43 @@ static MAX_IN_FLIGHT: AtomicU64 = AtomicU64::new(0);
 static WATCH_TAG: AtomicU64 = AtomicU64::new(0);
 static HARNESS_TIDS: std::sync::Mutex<Vec<u32>> = std::sync::Mutex::new(Vec::new());
 static STREAM_READS: AtomicU64 = AtomicU64::new(0);
+
+/// Link k of a chain loads link k-1; link 0 reads the file `chain.v`.
+struct Link(u64);
+impl assets_manager::Compound for Link {
+    fn load(cache: assets_manager::AnyCache, id: &assets_manager::SharedString) -> Result<Self, assets_manager::BoxedError> {
+        let k: usize = id[1..].parse()?;
+        Ok(Link(if k == 0 { cache.load::<crate::props::common::Ver>("chain")?.read().0 } else { cache.load::<Link>(&format!("c{}", k - 1))?.read().0 + 1 }))
+    }
+}
+
+/// A dependency chain of `len` assets, loaded bottom-up (no deep recursion on the loading thread); then the file at
+/// its bottom changes: one hot_reload call re-loads the whole chain on the reloader thread (whose walk over the
+/// graph is recursive) and returns; the top holds the new value.
+fn deep_chain(len: u16, out: &mut Outcome) {
+    use crate::memsrc::MemSource;
+    use assets_manager::AssetCache;
+    let src = MemSource::new(true);
+    src.tree().put("chain", "v", b"0".to_vec(), Variant::Buffer);
+    let cache = AssetCache::with_source(src.handle());
+    for k in 0..=len {
+        if cache.load::<Link>(&format!("c{k}")).is_err() {
+            out.fail("harness", format!("chain link {k} did not load"));
+            return;
+        }
+    }
+    src.tree().put("chain", "v", b"100000".to_vec(), Variant::Buffer);
+    src.send(&OwnedEntry::File("chain".into(), "v".into()));
+    cache.hot_reload();
+    let top = cache.get_cached::<Link>(&format!("c{len}")).map(|h| h.read().0);
+    if top != Some(100_000 + len as u64) {
+        out.fail(
+            "reload-lost",
+            format!("a chain of {len} assets: the file at its bottom changed and was notified before hot_reload was called; after the call the top link holds {top:?}, expected {}", 100_000 + len as u64),
+        );
+    }
+    out.label("deep-dependency-chain");
+}
 
 /// One hot_reload call against `producers` threads flooding the event channel. Progress is counted in events
 /// sent, not in time: the call must be back before the producers have sent `LIMIT` more events.
@@ -259,12 +299,12 @@ impl Prop for C08 {
                     prop_oneof![4 => Just(None), 1 => (0u8..4).prop_map(Some)],
                     prop_oneof![2 => Just(0u16), 1 => 100u16..600],
                     prop_oneof![3 => Just(0u16), 1 => 100u16..500],
-                    prop_oneof![5 => Just(0u8), 1 => 3u8..7],
+                    (prop_oneof![5 => Just(0u8), 1 => 3u8..7], prop_oneof![5 => Just(0u16), 1 => 1500u16..3000]),
                 )
             })
-            .prop_map(|(kinds, recipes, callers, iters, loaders, bursts, batched, pack, watcher_dies_after, stream, stop_races, flood)| {
+            .prop_map(|(kinds, recipes, callers, iters, loaders, bursts, batched, pack, watcher_dies_after, stream, stop_races, (flood, chain))| {
                 let nodes = kinds.iter().enumerate().map(|(i, k)| NodeDef { kind: *k, id: format!("n{i}"), ops: recipes[i].clone() }).collect();
-                to_case(&Case { nodes, callers, iters, loaders, bursts, batched, pack, watcher_dies_after, stream, stop_races, flood })
+                to_case(&Case { nodes, callers, iters, loaders, bursts, batched, pack, watcher_dies_after, stream, stop_races, flood, chain })
             })
             .boxed()
     }
@@ -525,6 +565,9 @@ impl Prop for C08 {
         if c.flood > 0 && !out.failed() {
             flood(c.flood, &mut out);
         }
+        if c.chain > 0 && !out.failed() {
+            deep_chain(c.chain, &mut out);
+        }
         if c.stop_races > 0 && !out.failed() {
             stop_races(c.stop_races, 2 + (c.callers % 5));
             out.label("reloader-stops-under-callers");
@@ -533,6 +576,6 @@ impl Prop for C08 {
     }
 
     fn required_labels(&self) -> Vec<&'static str> {
-        vec!["requests-queued>=2", "lookup-cycle", "concurrent-loaders", "watcher-died-while-callers-run", "sustained-notification-stream", "reloader-stops-under-callers", "notification-flood"]
+        vec!["requests-queued>=2", "lookup-cycle", "concurrent-loaders", "watcher-died-while-callers-run", "sustained-notification-stream", "reloader-stops-under-callers", "notification-flood", "deep-dependency-chain"]
     }
 }
